@@ -37,6 +37,18 @@ func c11Bases(seed int64, thorough bool) []*e2eCase {
 		mk(true, false, 3, false, []int64{15000}, 0, 4096)
 		mk(true, false, 1, false, []int64{3000}, 1, 4096)
 		mk(false, false, 4, false, []int64{100, 30000}, 2, 1024)
+		// longer transfers, compression, escape table, several files, archive-mode download
+		mk(true, false, 4, true, []int64{30000, 0, 12000}, 1, 2048)
+		res[len(res)-1].Opts.Compress = 1
+		mk(false, true, 4, false, []int64{24000, 2000}, 1, 4096)
+		res[len(res)-1].Opts.Escape = true
+		mk(false, true, 4, false, []int64{40000, 300}, 1, 4096)
+		res[len(res)-1].Opts.Directory = true
+		for i := range res[len(res)-1].Nodes {
+			res[len(res)-1].Nodes[i].Rel = "tree/" + res[len(res)-1].Nodes[i].Rel
+		}
+		mk(true, false, 2, true, []int64{8000, 8000}, 0, 4096)
+		res[len(res)-1].Opts.Compress = 0
 	}
 	return res
 }
